@@ -2,13 +2,21 @@
 // ways (prefix:"key", value:"${key}", prop:"key"), plus literal value tags, and reports the bound
 // field rendered canonically (type-tagged), together with what Configure.Get(key) returned.
 //
-// stdin : {"cases":[{id, kind:"key"|"lit", yaml, key, args, text, type:<T>, pre:<fval>|null}]}
+// stdin : {"cases":[{id, kind:"key"|"lit"|"tpl", yaml, key, body, pfx, sfx, args, text, type:<T>, pre:<fval>|null}],
+//          "groups":[{gid, starts:[{yaml, comps:[{cases:[<case>...]}]}]}]}
+//         body = key or key:default (the placeholder is ${body}, the prop tag is body); kind "tpl" runs the value route
+//         only, with the tag pfx${body}sfx; args = ",required=false" and/or ",mapper=<tag key>" (appended to every tag).
+//         A group is run in a process of its own: its starts one after the other, every start ONE App.Run over all
+//         its components, every component a struct with three fields per key case (prefix, value, prop - in that
+//         order) or one field per lit / tpl case.  Cases outside groups: one App.Run per route, 250 cases per process.
 //         pre = the value the bound field holds BEFORE App.Run (a constructor default); with pre set, every route
 //         runs on a component whose field was pre-filled, and one more run ("fresh": the prefix route, for a literal
 //         the value route) binds the same thing into a zero component
 //         <T> = {"k":"string"|"bool"|"int"|"uint"|"float"|"any"|"ptr"|"slice"|"map"|"struct",
-//                "bits":8|16|32|64|0 (0 = int/uint), "e":<T>, "f":[{"go":"Name","tag":"yaml name or empty","t":<T>}]}
-// stdout: @@JSON {"outs":[{id, get:<cval>|null, prefix:<obs>, value:<obs>, prop:<obs>, fresh:<obs>, pre:<fval> read back}]}
+//                "bits":8|16|32|64|0 (0 = int/uint), "e":<T>,
+//                "f":[{"go":"Name","tags":[{"k":"yaml","v":"tag text"}...],"name":"name to render the field under","t":<T>}]}
+// stdout: @@JSON {"outs":[{id, get:<cval>|null, prefix:<obs>, value:<obs>, prop:<obs>, fresh:<obs>, pre:<fval> read back}],
+//                 "gouts":[{gid, outs:[... one per case of the group, in order ...]}]}
 //         <obs>  = {"o":"ok","f":<fval>} | {"o":"err","d":detail} | {"o":"panic","d":detail} | {"o":"hang"} | null (route not run)
 //         <fval> = {"S":hex} {"B":bool} {"I":"dec"} {"F":"shortest float text"} {"N":1} {"P":fval} {"L":[fval]}
 //                  {"M":[[hexkey,fval]...]} (keys sorted) {"T":[[matchname-hex,fval]...]} {"A":<cval>}
@@ -28,9 +36,11 @@ import (
 	"os"
 	"os/exec"
 	"reflect"
+	"runtime"
 	"sort"
 	"strconv"
 	"strings"
+	"sync"
 	"time"
 
 	"github.com/go-kid/ioc/app"
@@ -46,10 +56,16 @@ type TypeSpec struct {
 	F    []FieldSpec `json:"f"`
 }
 
+type TagSpec struct {
+	K string `json:"k"`
+	V string `json:"v"`
+}
+
 type FieldSpec struct {
-	Go  string   `json:"go"`
-	Tag string   `json:"tag"`
-	T   TypeSpec `json:"t"`
+	Go   string    `json:"go"`
+	Tags []TagSpec `json:"tags"`
+	Name string    `json:"name"` // observations render the field under this name (the generator's reading of the match name)
+	T    TypeSpec  `json:"t"`
 }
 
 type Case struct {
@@ -57,7 +73,10 @@ type Case struct {
 	Kind string   `json:"kind"`
 	Yaml string   `json:"yaml"`
 	Key  string   `json:"key"`
-	Args string   `json:"args"` // "" or ",required=false"
+	Body string   `json:"body"` // key or key:default ("" = key)
+	Pfx  string   `json:"pfx"`
+	Sfx  string   `json:"sfx"`
+	Args string   `json:"args"` // "", ",required=false", ",mapper=json", ...
 	Text string   `json:"text"` // literal: the whole tag text
 	Type TypeSpec `json:"type"`
 	Pre  any      `json:"pre"` // <fval> to put into the field before Run (nil = zero component)
@@ -73,8 +92,28 @@ type Out struct {
 	Pre    any `json:"pre"`   // pre-filled cases: the pre-filled field as rendered before Run
 }
 
-type Input struct {
+type Comp struct {
 	Cases []Case `json:"cases"`
+}
+
+type Start struct {
+	Yaml  string `json:"yaml"`
+	Comps []Comp `json:"comps"`
+}
+
+type Group struct {
+	GID    int     `json:"gid"`
+	Starts []Start `json:"starts"`
+}
+
+type GroupOut struct {
+	GID  int   `json:"gid"`
+	Outs []Out `json:"outs"`
+}
+
+type Input struct {
+	Cases  []Case  `json:"cases"`
+	Groups []Group `json:"groups"`
 }
 
 func goType(t *TypeSpec) reflect.Type {
@@ -125,9 +164,11 @@ func goType(t *TypeSpec) reflect.Type {
 		fs := make([]reflect.StructField, 0, len(t.F))
 		for _, f := range t.F {
 			sf := reflect.StructField{Name: f.Go, Type: goType(&f.T)}
-			if f.Tag != "" {
-				sf.Tag = reflect.StructTag(fmt.Sprintf(`yaml:%q`, f.Tag))
+			parts := make([]string, 0, len(f.Tags))
+			for _, tg := range f.Tags {
+				parts = append(parts, fmt.Sprintf(`%s:%q`, tg.K, tg.V))
 			}
+			sf.Tag = reflect.StructTag(strings.Join(parts, " "))
 			fs = append(fs, sf)
 		}
 		return reflect.StructOf(fs)
@@ -229,7 +270,7 @@ func canonField(v reflect.Value, t *TypeSpec) any {
 	case "struct":
 		kids := make([]any, 0, len(t.F))
 		for i := range t.F {
-			name := t.F[i].Tag
+			name := t.F[i].Name
 			if name == "" {
 				name = t.F[i].Go
 			}
@@ -437,6 +478,10 @@ func runCase(c Case) Out {
 		}
 		return out
 	}
+	body := c.Body
+	if body == "" {
+		body = c.Key
+	}
 	p := hx.Guard(func() {
 		a := app.NewApp()
 		if err := a.Run(app.SetConfigLoader(loader.NewRawLoader([]byte(c.Yaml)))); err != nil {
@@ -448,34 +493,216 @@ func runCase(c Case) Out {
 	if p != "" {
 		out.Get = map[string]any{"x": "get failed: " + clip(p)}
 	}
+	if c.Kind == "tpl" {
+		out.Value = runRoute(c.Yaml, ft, &c.Type, structTag("value", c.Pfx+"${"+body+"}"+c.Sfx+c.Args), c.Pre)
+		return out
+	}
 	out.Prefix = runRoute(c.Yaml, ft, &c.Type, structTag("prefix", c.Key+c.Args), c.Pre)
-	out.Value = runRoute(c.Yaml, ft, &c.Type, structTag("value", "${"+c.Key+"}"+c.Args), c.Pre)
-	out.Prop = runRoute(c.Yaml, ft, &c.Type, structTag("prop", c.Key+c.Args), c.Pre)
+	out.Value = runRoute(c.Yaml, ft, &c.Type, structTag("value", "${"+body+"}"+c.Args), c.Pre)
+	out.Prop = runRoute(c.Yaml, ft, &c.Type, structTag("prop", body+c.Args), c.Pre)
 	if c.Pre != nil {
 		out.Fresh = runRoute(c.Yaml, ft, &c.Type, structTag("prefix", c.Key+c.Args), nil)
 	}
 	return out
 }
 
-func runChild(cases []Case, limit time.Duration) ([]Out, bool) {
+// slot = where one field of a group's component reports to
+type slot struct {
+	out   *Out
+	route string // "prefix" | "value" | "prop"
+	spec  *TypeSpec
+	field int
+}
+
+func setRoute(o *Out, route string, v any) {
+	switch route {
+	case "prefix":
+		o.Prefix = v
+	case "value":
+		o.Value = v
+	case "prop":
+		o.Prop = v
+	}
+}
+
+// one group: its starts one after the other in THIS process; every start is one App.Run over all its components
+func runGroup(g Group) GroupOut {
+	res := GroupOut{GID: g.GID}
+	for si := range g.Starts {
+		st := &g.Starts[si]
+		n := 0
+		for ci := range st.Comps {
+			n += len(st.Comps[ci].Cases)
+		}
+		outs := make([]Out, n)
+		// what Configure.Get returns for every key of the start
+		p := hx.Guard(func() {
+			a := app.NewApp()
+			if err := a.Run(app.SetConfigLoader(loader.NewRawLoader([]byte(st.Yaml)))); err != nil {
+				panic(err)
+			}
+			k := 0
+			for ci := range st.Comps {
+				for _, c := range st.Comps[ci].Cases {
+					outs[k].ID = c.ID
+					if c.Kind != "lit" {
+						outs[k].Get = canonAny(a.Get(c.Key))
+					}
+					k++
+				}
+			}
+		})
+		if p != "" {
+			k := 0
+			for ci := range st.Comps {
+				for _, c := range st.Comps[ci].Cases {
+					outs[k].ID = c.ID
+					outs[k].Get = map[string]any{"x": "get failed: " + clip(p)}
+					k++
+				}
+			}
+		}
+		var slots []slot
+		var holders []reflect.Value
+		var comps []any
+		var runErr error
+		p = hx.Guard(func() {
+			k := 0
+			for ci := range st.Comps {
+				cases := st.Comps[ci].Cases
+				var fields []reflect.StructField
+				var cslots []slot
+				add := func(o *Out, c *Case, route, tag string) {
+					name := fmt.Sprintf("C%dK%d%s", ci, len(fields), strings.ToUpper(route[:1])+route[1:])
+					fields = append(fields, reflect.StructField{Name: name, Type: goType(&c.Type), Tag: reflect.StructTag(tag)})
+					cslots = append(cslots, slot{out: o, route: route, spec: &c.Type, field: len(fields) - 1})
+				}
+				for i := range cases {
+					c := &cases[i]
+					o := &outs[k]
+					k++
+					body := c.Body
+					if body == "" {
+						body = c.Key
+					}
+					switch c.Kind {
+					case "lit":
+						add(o, c, "value", structTag("value", c.Text))
+					case "tpl":
+						add(o, c, "value", structTag("value", c.Pfx+"${"+body+"}"+c.Sfx+c.Args))
+					default:
+						add(o, c, "prefix", structTag("prefix", c.Key+c.Args))
+						add(o, c, "value", structTag("value", "${"+body+"}"+c.Args))
+						add(o, c, "prop", structTag("prop", body+c.Args))
+					}
+				}
+				holder := reflect.New(reflect.StructOf(fields))
+				for j := range cslots {
+					cslots[j].field = j
+				}
+				base := len(slots)
+				slots = append(slots, cslots...)
+				for j := base; j < len(slots); j++ {
+					holders = append(holders, holder)
+				}
+				comps = append(comps, holder.Interface())
+			}
+			a := app.NewApp()
+			runErr = a.Run(app.SetConfigLoader(loader.NewRawLoader([]byte(st.Yaml))), app.SetComponents(comps...))
+		})
+		if p != "" || runErr != nil {
+			var bad map[string]any
+			if p != "" {
+				bad = map[string]any{"o": "panic", "d": clip(p)}
+			} else {
+				bad = map[string]any{"o": "err", "d": clip(runErr.Error())}
+			}
+			if len(slots) == 0 { // the component types could not be built
+				for k := range outs {
+					outs[k].Prefix, outs[k].Value, outs[k].Prop = bad, bad, bad
+				}
+			}
+			for _, s := range slots {
+				setRoute(s.out, s.route, bad)
+			}
+		} else {
+			for j, s := range slots {
+				var f any
+				s := s
+				hv := holders[j]
+				q := hx.Guard(func() { f = canonField(hv.Elem().Field(s.field), s.spec) })
+				if q != "" {
+					setRoute(s.out, s.route, map[string]any{"o": "panic", "d": "observe: " + clip(q)})
+				} else {
+					setRoute(s.out, s.route, map[string]any{"o": "ok", "f": f})
+				}
+			}
+		}
+		res.Outs = append(res.Outs, outs...)
+	}
+	return res
+}
+
+func groupSize(g *Group) int {
+	n := 0
+	for si := range g.Starts {
+		for ci := range g.Starts[si].Comps {
+			n += len(g.Starts[si].Comps[ci].Cases)
+		}
+	}
+	return n
+}
+
+func runChildInput(in Input, limit time.Duration) (outs []Out, gouts []GroupOut, ok bool) {
 	ctx, cancel := context.WithTimeout(context.Background(), limit)
 	defer cancel()
 	cmd := exec.CommandContext(ctx, os.Args[0])
 	cmd.Env = append(os.Environ(), "VERIF_C17_CHILD=1")
-	data, _ := json.Marshal(Input{Cases: cases})
+	data, _ := json.Marshal(in)
 	cmd.Stdin = bytes.NewReader(data)
 	raw, _ := cmd.CombinedOutput()
 	for _, ln := range strings.Split(string(raw), "\n") {
 		if strings.HasPrefix(ln, "@@JSON ") {
 			var o struct {
-				Outs []Out `json:"outs"`
+				Outs  []Out      `json:"outs"`
+				Gouts []GroupOut `json:"gouts"`
 			}
-			if json.Unmarshal([]byte(ln[7:]), &o) == nil && len(o.Outs) == len(cases) {
-				return o.Outs, true
+			if json.Unmarshal([]byte(ln[7:]), &o) == nil && len(o.Outs) == len(in.Cases) && len(o.Gouts) == len(in.Groups) {
+				return o.Outs, o.Gouts, true
 			}
 		}
 	}
-	return nil, false
+	return nil, nil, false
+}
+
+func runChild(cases []Case, limit time.Duration) ([]Out, bool) {
+	outs, _, ok := runChildInput(Input{Cases: cases}, limit)
+	return outs, ok
+}
+
+// a group in a process of its own (what it leaves behind in package-level state cannot reach another group)
+func runGroupChild(g Group) GroupOut {
+	_, gouts, ok := runChildInput(Input{Groups: []Group{g}}, 60*time.Second)
+	if ok && len(gouts[0].Outs) == groupSize(&g) {
+		return gouts[0]
+	}
+	h := map[string]any{"o": "hang"}
+	res := GroupOut{GID: g.GID}
+	for si := range g.Starts {
+		for ci := range g.Starts[si].Comps {
+			for _, c := range g.Starts[si].Comps[ci].Cases {
+				o := Out{ID: c.ID, Get: map[string]any{"x": "hang"}}
+				switch c.Kind {
+				case "lit", "tpl":
+					o.Value = h
+				default:
+					o.Prefix, o.Value, o.Prop = h, h, h
+				}
+				res.Outs = append(res.Outs, o)
+			}
+		}
+	}
+	return res
 }
 
 func main() {
@@ -488,37 +715,76 @@ func main() {
 		for _, c := range in.Cases {
 			outs = append(outs, runCase(c))
 		}
-		hx.WriteOutput(map[string]any{"outs": outs})
+		gouts := make([]GroupOut, 0, len(in.Groups))
+		for _, g := range in.Groups {
+			gouts = append(gouts, runGroup(g))
+		}
+		hx.WriteOutput(map[string]any{"outs": outs, "gouts": gouts})
 		return
 	}
 	const chunk = 250
-	outs := make([]Out, 0, len(in.Cases))
-	for i := 0; i < len(in.Cases); i += chunk {
+	workers := runtime.NumCPU()
+	if workers > 12 {
+		workers = 12
+	}
+	if workers < 1 {
+		workers = 1
+	}
+	sem := make(chan struct{}, workers)
+	var wg sync.WaitGroup
+	nchunks := (len(in.Cases) + chunk - 1) / chunk
+	parts := make([][]Out, nchunks)
+	for ch := 0; ch < nchunks; ch++ {
+		i := ch * chunk
 		j := i + chunk
 		if j > len(in.Cases) {
 			j = len(in.Cases)
 		}
-		part, ok := runChild(in.Cases[i:j], 120*time.Second)
-		if ok {
-			outs = append(outs, part...)
-			continue
-		}
-		// isolate the case that kills or hangs the child
-		for _, c := range in.Cases[i:j] {
-			one, ok := runChild([]Case{c}, 20*time.Second)
+		wg.Add(1)
+		go func(ch, i, j int) {
+			defer wg.Done()
+			sem <- struct{}{}
+			defer func() { <-sem }()
+			part, ok := runChild(in.Cases[i:j], 240*time.Second)
 			if ok {
-				outs = append(outs, one...)
-			} else {
-				h := map[string]any{"o": "hang"}
-				o := Out{ID: c.ID, Get: map[string]any{"x": "hang"}, Prefix: h, Value: h, Prop: h}
-				if c.Pre != nil {
-					o.Fresh = h
-				}
-				outs = append(outs, o)
+				parts[ch] = part
+				return
 			}
-		}
+			// isolate the case that kills or hangs the child
+			for _, c := range in.Cases[i:j] {
+				one, ok := runChild([]Case{c}, 30*time.Second)
+				if ok {
+					parts[ch] = append(parts[ch], one...)
+				} else {
+					h := map[string]any{"o": "hang"}
+					o := Out{ID: c.ID, Get: map[string]any{"x": "hang"}, Prefix: h, Value: h, Prop: h}
+					if c.Kind == "tpl" || c.Kind == "lit" {
+						o.Prefix, o.Prop = nil, nil
+					}
+					if c.Pre != nil {
+						o.Fresh = h
+					}
+					parts[ch] = append(parts[ch], o)
+				}
+			}
+		}(ch, i, j)
 	}
-	hx.WriteOutput(map[string]any{"outs": outs, "facts": facts()})
+	gouts := make([]GroupOut, len(in.Groups))
+	for gi := range in.Groups {
+		wg.Add(1)
+		go func(gi int) {
+			defer wg.Done()
+			sem <- struct{}{}
+			defer func() { <-sem }()
+			gouts[gi] = runGroupChild(in.Groups[gi])
+		}(gi)
+	}
+	wg.Wait()
+	outs := make([]Out, 0, len(in.Cases))
+	for _, part := range parts {
+		outs = append(outs, part...)
+	}
+	hx.WriteOutput(map[string]any{"outs": outs, "gouts": gouts, "facts": facts()})
 }
 
 // facts reads off the running code which variant of the value path the tree has: with the repair D-C17g the
